@@ -118,6 +118,33 @@ CLAIMED = {
             "dispatch visits every claim; aud intersection; validate and the validators never store into the claims; now defaults to "
             "int(time.time()).",
             "Python comparison semantics on claim values", "5/C10"),
+    "C11": ("static analysis: encoder-shape rule on every exported JWK member (fixed-width vs minimal codec), member-set symmetry of exporters / "
+            "importers / registries, CFG dominance of validation, folded JWK parameter tables",
+            "Decides the structural clauses: EC x / y / d go through to_bytes(ceil(curve.key_size / 8), 'big') (never the minimal codec), RSA "
+            "members through the minimal unsigned big-endian codec, OKP through raw public/private bytes; exported member sets equal the "
+            "registries' (public = non-private members), importers read only registered members and all material-bearing ones; "
+            "validate_dict_key (parameter registry, value registry, use/key_ops consistency) dominates import_from_dict and the dict view bound "
+            "in __init__; CRT parameters all-or-none; imports end in pyca's validating constructors, unsafe_skip_rsa_key_validation is a "
+            "disallowed keyword; JWK_PARAMETER_REGISTRY, use/key_ops choices and the kty dispatch table equal RFC 7517; a dict-imported key keeps "
+            "the given members. Not decided: equality of key material across PEM / DER / JWK for every key value (pyca serialisation trusted).",
+            "pyca serialisation and number validation", "5/C11"),
+    "C13": ("static analysis: folded required-member tables vs RFC 7638, structural decision of the canonical-JSON construction, encoder-shape "
+            "rule for the EC members feeding the digest, guard / who-calls rule for kid assignment",
+            "Decides: thumbprint members (required members of each value_registry + kty) equal RFC 7638 3.2 / RFC 8037 2 and BaseKey.thumbprint "
+            "passes exactly those; rfc7638.thumbprint copies only the listed fields in lexicographic order, serialises with separators (',', ':'), "
+            "digests the UTF-8 bytes with the selected one of sha256/384/512 and emits unpadded base64url; the EC members feeding the digest have "
+            "the RFC length (so PEM-loaded and JWK-loaded forms agree); ensure_kid stores self.thumbprint() only under `'kid' not in dict_value`, "
+            "no other store to kid exists in key classes, and KeySet.__init__/as_dict, the four generate_key(auto_kid) and guess_key call it.",
+            "hashlib; json.dumps of ASCII member values", "5/C13"),
+    "C14": ("static analysis: path-condition enumeration of get_by_kid, CFG reachability under branch filters in guess_key, literal table of "
+            "use_random at all 12 call sites, folded algorithm -> key-type table, effect analysis of the key-set methods",
+            "Decides: every return of get_by_kid is guarded by (kid is None and a single key) or key.kid == kid and the fall-through raises "
+            "InvalidKeyIdError; guess_key reads kid from the merged headers, picks randomly only when use_random and no kid, then ensures and "
+            "records the kid, otherwise get_by_kid(kid); consuming call sites never pass use_random, producing ones pass True; every registered "
+            "algorithm (15 JWS, 17 JWE, 4 draft) has a key-type entry equal to the model's and the RFC's; pick_random_key filters by those types; "
+            "selection never reorders / modifies the set; __init__, import_key_set and as_dict keep every key and give it a kid; the three "
+            "set_kid siblings write kid; the sender key is resolved by skid.",
+            "kid-before-header ordering is decided under C03", "5/C14"),
 }
 
 NOT_YET = "check not built yet (build in progress; see DESIGN.md section 5 for the planned rules)"
